@@ -1,3 +1,4 @@
+import IcyVerif.Drv.ArtIO
 import IcyVerif.Drv.Bgi
 import IcyVerif.Drv.BinFormats
 import IcyVerif.Drv.Codec
@@ -22,6 +23,7 @@ open IcyVerif.Drv
 
 def dispatch (line : String) : String :=
   match line.trimAscii.toString.splitOn " " with
+  | "artio" :: rest => ArtIO.handle rest
   | "bgi" :: rest => Bgi.handle rest
   | "binformats" :: rest => BinFormats.handle rest
   | "codec" :: rest => Codec.handle rest
